@@ -348,7 +348,7 @@ func altAdmits(a AltAST, c Triple3) bool {
 
 var specC06Select = Register(&Spec[SelectCase]{
 	Prop: "C06", Name: "select",
-	Rule: "random dependency ASTs (C04 generator, canonical spacing) parsed and queried for one of 13 concrete architectures (one-part, three-part and two-part OS-CPU names such as hurd-i386). Oracle on the AST: GetPossibilities returns, per relation and in order, the first non-substvar alternative whose architecture list admits the architecture (nothing for a relation with none); GetAllPossibilities returns every non-substvar alternative in order; GetSubstvars the substvars in order. Non-trivial: some relation selects a later alternative or selects nothing although it has package alternatives; distinct by (text, arch).",
+	Rule: "random dependency ASTs (C04 generator, canonical spacing) parsed and queried for one of 13 concrete architectures (one-part, three-part and two-part OS-CPU names such as hurd-i386). Oracle on the AST: GetPossibilities returns, per relation and in order, the first non-substvar alternative whose architecture list admits the architecture (nothing for a relation with none); GetAllPossibilities returns every non-substvar alternative in order; GetSubstvars the substvars in order; the same relations built as struct literals (no architecture list = nil) select the same alternatives. Non-trivial: some relation selects a later alternative or selects nothing although it has package alternatives; distinct by (text, arch).",
 	Check: func(c SelectCase, r *Recorder) error {
 		cm, _ := archModel(c.Arch)
 		for _, rel := range c.AST.Rels {
@@ -420,7 +420,42 @@ var specC06Select = Register(&Spec[SelectCase]{
 		if err := cmp("GetAllPossibilities", dep.GetAllPossibilities(), all); err != nil {
 			return err
 		}
-		return cmp("GetSubstvars", dep.GetSubstvars(), sv)
+		if err := cmp("GetSubstvars", dep.GetSubstvars(), sv); err != nil {
+			return err
+		}
+		// the same relations put together by hand, the way a program builds a dependency it did not
+		// parse: an alternative without an architecture list simply has none (nil), which admits
+		// everything just like an empty one
+		built := dependency.Dependency{}
+		for _, rel := range c.AST.Rels {
+			br := dependency.Relation{}
+			for _, a := range rel.Alts {
+				p := dependency.Possibility{Name: a.Name, Substvar: a.Substvar}
+				if len(a.Archs) > 0 {
+					set := &dependency.ArchSet{Not: a.ArchNot}
+					for _, n := range a.Archs {
+						pa, err := dependency.ParseArch(n)
+						if err != nil {
+							return nil
+						}
+						set.Architectures = append(set.Architectures, *pa)
+					}
+					p.Architectures = set
+				}
+				br.Possibilities = append(br.Possibilities, p)
+			}
+			built.Relations = append(built.Relations, br)
+		}
+		got := built.GetPossibilities(*arch)
+		if len(got) != len(want) {
+			return errf("GetPossibilities of the hand-built form of %q for %s returned %d possibilities, want %d", c.Text, c.Arch, len(got), len(want))
+		}
+		for i := range got {
+			if got[i].Name != want[i].Name {
+				return errf("GetPossibilities of the hand-built form of %q for %s: entry %d is %q, want %q", c.Text, c.Arch, i, got[i].Name, want[i].Name)
+			}
+		}
+		return nil
 	},
 })
 
